@@ -147,6 +147,24 @@ Fixpoint probes (fuel : nat) (env : senv) (syms : list N) (t : ty) : list path :
       end
   end.
 
+(* the slots next to a target path, at any depth: at every step of the walk along [p], every
+   path of up to two steps from the struct / map / interface slot the walk is in *)
+Fixpoint probes_along (env : senv) (syms : list N) (t : ty) (pre p : path) : list path :=
+  match p with
+  | [] => []
+  | f :: rest =>
+      let here := map (fun q => pre ++ q) (probes 2 env syms t) in
+      let next := match t with
+                  | TMap true e => Some e
+                  | TAny => Some TAny
+                  | _ => match deref1 t with
+                         | TStruct n => match lookup_field env n f with Some (_, ft) => Some ft | None => None end
+                         | _ => None
+                         end
+                  end in
+      here ++ match next with Some t' => probes_along env syms t' (pre ++ [f]) rest | None => [] end
+  end.
+
 Fixpoint dedupN (l : list N) : list N :=
   match l with
   | [] => []
@@ -154,14 +172,17 @@ Fixpoint dedupN (l : list N) : list N :=
   end.
 
 (* second conclusion of mapped_get_put / assign_get_put on an observed value: a probe path
-   that overlaps no target path reads as the zero value of its static type (or not at all) *)
+   that overlaps no target path reads as the zero value of its static type (or not at all).
+   Probes: every static path up to three steps, and the neighbourhood (two steps) of every
+   prefix of every target path, whatever its depth *)
 Definition zero_clause (env : senv) (T : ty) (targets : list path) (v : val) : bool :=
   forallb (fun q =>
     if existsb (conflict q) targets then true
     else match take_path env v q with
          | Ok z => match extract_ty env T q with SOk st _ => veq env z (zero st) | _ => false end
          | _ => true
-         end) (probes 3 env (dedupN (List.concat targets)) T).
+         end) (let syms := dedupN (List.concat targets) in
+               probes 3 env syms T ++ flat_map (probes_along env syms T []) targets).
 
 (* conclusion of stream_partition on the observed Invoke value and the observed chunks (one chunk
    per predecessor): every target slot that is not zero in the Invoke value is carried by exactly
